@@ -126,7 +126,10 @@ theorem C13_ignore_cmd (g : Graph) (names l : List Name) (s : St) (h : ignoreTar
     without repetition in which no task is handed over before a dependency it needs has its report (`bad = false`;
     that is C01's theorem about the dispatcher, evaluated by the driver on every observed run) -- every processed task
     that carries the mark or reaches a marked task over `task_dep` edges (declared or implicit through a target) is
-    reported ignored, and every processed task with such a task among its setup-tasks is not executed. -/
+    reported ignored, and every processed task with such a task among its setup-tasks is not executed.  (The monitor
+    is stricter on the last clause: such a task must be reported ignored / up-to-date / dependency-error, or unmet
+    only when one of its `task_dep`s failed -- the model satisfies that too, `runOne` checks the ignored setup-tasks
+    before the failed ones; it is not part of this statement.) -/
 theorem C13_ignore_run (g : Graph) (s : St) (order : List Name) (always : Bool) (plan : Name → Plan)
     (hnd : order.Nodup) (hbad : (runAll true always g plan s order).bad = false) (t : Name) (ht : t ∈ order) :
     (IgnReach g s.defs (fun k => (s.rcd k).ign) t → outOf (runAll true always g plan s order) t = some .ignored) ∧
